@@ -650,15 +650,48 @@ def _run(eng, contract, fn, res):
             raise Unsupported(f"outcome {oc} at function level")
     if npaths == 0:
         raise Unsupported("no feasible path through the function")
-    # discharge
+    # discharge.  Obligations with the same label on different paths are first
+    # tried as ONE query (disjunction over the paths, common path-condition
+    # prefix factored out); only if that is not `unsat` are the paths tried
+    # one by one to locate the failing path.
     shard = getattr(eng, "shard", None)
+    groups = {}
+    order = []
     for oi, ob in enumerate(eng.obligations):
-        if shard is not None and oi % shard[1] != shard[0]:
+        key = (ob.label, ob.kind)
+        if key not in groups:
+            groups[key] = []
+            order.append(key)
+        groups[key].append(ob)
+    for gi, key in enumerate(order):
+        if shard is not None and gi % shard[1] != shard[0]:
             continue
-        status, backend, dt, detail = discharge(eng, ob)
-        res.obligations.append(
-            {"label": ob.label, "kind": ob.kind, "status": status, "backend": backend, "time_s": dt, "detail": detail, "line": ob.lineno}
-        )
+        obs = groups[key]
+        merged_ok = False
+        live = [ob for ob in obs if not getattr(ob, "trivial", False)]
+        if len(live) > 1:
+            t0m = time.time()
+            pref = list(live[0].pc)
+            for ob in live[1:]:
+                n = 0
+                while n < len(pref) and n < len(ob.pc) and pref[n].eq(ob.pc[n]):
+                    n += 1
+                pref = pref[:n]
+            sm = solver_for(eng, pref)
+            sm.add(z3.Or(*[z3.And(*(ob.pc[len(pref):] + [z3.Not(ob.goal)])) for ob in live]))
+            if sm.check() == z3.unsat:
+                merged_ok = True
+                dtm = (time.time() - t0m) / len(live)
+        for ob in obs:
+            if getattr(ob, "trivial", False):
+                status, backend, dt, detail = "discharged", "syntactic", 0.0, None
+            elif merged_ok:
+                status, backend, dt, detail = "discharged", "z3", dtm, None
+            else:
+                status, backend, dt, detail = discharge(eng, ob)
+            res.obligations.append(
+                {"label": ob.label, "kind": ob.kind, "status": status, "backend": backend, "time_s": dt, "detail": detail, "line": ob.lineno}
+            )
     # canary: 'False' after a returning path must NOT be provable
     if contract.canary and canary_state is not None and (shard is None or shard[0] == 0):
         cob = Obligation("canary", "canary", list(canary_state.pc), z3.BoolVal(False))
